@@ -507,6 +507,13 @@ func (c *Ctx) ruleLoopInventory(rule string) {
 		}
 	}
 	c.Min(rule, 40)
+	c.ruleIteratorContract(rule)
+}
+
+// ruleIteratorContract: the iterators a forRange runs on hand out every position once and end:
+// Key() advances the cursor by exactly one, Next() is cursor < bound and stores nothing, the bound
+// is fixed when the iterator is made.
+func (c *Ctx) ruleIteratorContract(rule string) {
 	// the iterator contract (S4)
 	boundField := map[string]bool{}
 	doneIter := map[string]bool{}
@@ -585,6 +592,15 @@ func (c *Ctx) ruleLoopInventory(rule string) {
 			}
 		})
 		c.Check(rule, "iter."+tn+".Next#cursor-below-length", okNext, next.Pos(), "Next() must be cursor < length")
+		nextStores := false
+		eachInstr(next, func(in ssa.Instruction) {
+			if st, ok := in.(*ssa.Store); ok {
+				if _, isFA := st.Addr.(*ssa.FieldAddr); isFA {
+					nextStores = true
+				}
+			}
+		})
+		c.Check(rule, "iter."+tn+".Next#asks-only", !nextStores, next.Pos(), "Next() must not move the cursor: the loop asks Next() and then takes Key(), which advances")
 		c.Check(rule, "iter."+tn+".Next#length-fixed-at-creation", okNext && okBound, next.Pos(), "the bound Next() compares the cursor with must be a number or key list stored in the iterator when it was made (a loop body can grow the ranged collection)")
 	}
 	// ... and nothing but the constructor stores that bound
